@@ -140,6 +140,23 @@ func cmdCheck(args []string) int {
 			allObls = append(allObls, res.Obls...)
 		}
 	}
+	// implementation-level views of functions whose main contract is trusted at call sites
+	for _, v := range e.specs.Views {
+		if !v.Props[*prop] {
+			continue
+		}
+		if *only != "" && !strings.Contains(v.ViewOf, *only) {
+			continue
+		}
+		fn := e.lookupFunc(v.Pkg, v.Key)
+		if fn == nil {
+			missing = append(missing, v.ViewOf+"#"+v.ViewName)
+			continue
+		}
+		res := e.VerifyFunctionAs(fn, v, panicProps[*prop], props, "view:"+v.ViewName)
+		results = append(results, res)
+		allObls = append(allObls, res.Obls...)
+	}
 	// lemmas
 	lemObls, lemErr := e.lemmaObligations(*prop)
 	allObls = append(allObls, lemObls...)
